@@ -188,7 +188,7 @@ def strat_reject(why):
             return common("set_auto_shutdown", st.tuples(secs, st.integers(0, 999_999)).map(
                 lambda t: {"seconds": t[0], "micros": t[1]}), {"why": why})
         if why == "name-too-short":
-            nm = st.one_of(st.just(""), st.sampled_from(list(gen.ASCII)))
+            nm = st.one_of(st.just(""), st.sampled_from(list(gen.ASCII)), st.sampled_from(["א", "é", "😀", "ß", "\u3000", "ñ"]))
             return common("set_device_name", nm.map(lambda n: {"name": n}), {"why": why})
         if why == "name-too-long":
             nm = gen.names(9, 40).filter(lambda s: len(s.encode("utf-8")) > 32) | st.sampled_from(
